@@ -425,6 +425,7 @@ func (c *c28Case) witnessPlan(rt *rapid.T, id [32]byte, body []byte) {
 			w := goodBoot(b, id)
 			if rapid.Bool().Draw(rt, "extraBootBad") {
 				w.Sig = flipBit(w.Sig, rapid.IntRange(0, 511).Draw(rt, "extraBootBit"))
+				w.Note = "extra-invalid"
 				c.Faults = append(c.Faults, "extra-invalid-unrelated-bootstrap")
 			} else {
 				c.Faults = append(c.Faults, "extra-valid-unrelated-bootstrap")
